@@ -1,12 +1,22 @@
 import GqlModel.Json.Model
+import GqlModel.Lexer.Model
 /-
   Specification side of C19: the IMAGE of a document under encode-then-decode.
 
   `imgDoc f legacy d` is `d` with every position zeroed (positions are `json:"-"`), every string
   passed through `f` (`sanitize` for the real round trip, `id` for "the same document modulo
-  positions") and — when `legacy` — every fragment spread and inline fragment turned into the
+  positions") and — when `legacy`, i.e. for the decoder as it stood BEFORE the repair of
+  `UnmarshalSelectionSet` (history) — every fragment spread and inline fragment turned into the
   `Field` that `(*Field).UnmarshalJSON` builds from its object (the keys it knows: `Name`,
   `Directives`, `SelectionSet`; everything else zero).
+
+  What `stripDoc = imgDoc id false` forgets, exactly: the seven kinds of `Pos` fields of the tree
+  (of types, values, object fields, arguments, directives, selections, variable definitions,
+  operations and fragments), all set to `Pos.zero`.  Nothing else: the tree type has no comments
+  (Go: `Comment *CommentGroup`, nil in a comment-free parsed document, and not compared by C19),
+  no validation links (nil before validation) and does not distinguish a nil slice from an empty
+  one (Go: the parser leaves nil slices, the decoder makes `SelectionSet` an empty non-nil slice
+  and leaves the other absent lists nil — both are the empty list of the tree).
 -/
 namespace Gql.Json
 open Gql
@@ -108,6 +118,76 @@ def FixDoc (f : Bytes → Bytes) (d : QueryDoc) : Prop :=
     coercion `json.Marshal` applies).  True of every document parsed from UTF-8 text. -/
 def Utf8Clean (d : QueryDoc) : Prop := FixDoc sanitize d
 
+/- ---------------- the same, as a decision procedure ---------------- -/
+
+def fixTypeB (f : Bytes → Bytes) : GType → Bool
+  | .named n _ _ => decide (f n = n)
+  | .list e _ _ => fixTypeB f e
+
+mutual
+  def fixValueB (f : Bytes → Bytes) : Value → Bool
+    | .mk _ raw ch _ => decide (f raw = raw) && fixChildrenB f ch
+  def fixChildrenB (f : Bytes → Bytes) : Children → Bool
+    | .nil => true
+    | .cons n v _ rest => decide (f n = n) && (fixValueB f v && fixChildrenB f rest)
+end
+
+def fixArgB (f : Bytes → Bytes) (a : Argument) : Bool := decide (f a.name = a.name) && fixValueB f a.value
+def fixDirB (f : Bytes → Bytes) (d : Directive) : Bool := decide (f d.name = d.name) && d.args.all (fixArgB f)
+
+mutual
+  def fixSelB (f : Bytes → Bytes) : Selection → Bool
+    | .field al nm args ds sel _ =>
+      decide (f al = al) && (decide (f nm = nm) && (args.all (fixArgB f) && (ds.all (fixDirB f) && fixSelsB f sel)))
+    | .spread nm ds _ => decide (f nm = nm) && ds.all (fixDirB f)
+    | .inline tc ds sel _ => decide (f tc = tc) && (ds.all (fixDirB f) && fixSelsB f sel)
+  def fixSelsB (f : Bytes → Bytes) : Selections → Bool
+    | .nil => true
+    | .cons s rest => fixSelB f s && fixSelsB f rest
+end
+
+def fixOptValueB (f : Bytes → Bytes) : Option Value → Bool
+  | none => true
+  | some x => fixValueB f x
+
+def fixVarDefB (f : Bytes → Bytes) (v : VarDef) : Bool :=
+  decide (f v.var = v.var) && (fixTypeB f v.type && (fixOptValueB f v.default && v.dirs.all (fixDirB f)))
+
+def fixOpB (f : Bytes → Bytes) (o : OperationDef) : Bool :=
+  decide (f o.op = o.op) && (decide (f o.name = o.name) && (o.vars.all (fixVarDefB f) &&
+    (o.dirs.all (fixDirB f) && fixSelsB f o.sel)))
+
+def fixFragB (f : Bytes → Bytes) (fr : FragmentDef) : Bool :=
+  decide (f fr.name = fr.name) && (fr.vars.all (fixVarDefB f) && (decide (f fr.typeCond = fr.typeCond) &&
+    (fr.dirs.all (fixDirB f) && fixSelsB f fr.sel)))
+
+def fixDocB (f : Bytes → Bytes) (d : QueryDoc) : Bool := d.ops.all (fixOpB f) && d.frags.all (fixFragB f)
+
+/-- THE well-formedness predicate of the round-trip theorem, as an executable test (driver op
+    `jsonwf`): every string of the document — operation types, names, aliases, variables, type
+    names, type conditions, raw values, object-field names — is well-formed UTF-8.
+    `utf8CleanB d = true ↔ Utf8Clean d` (`utf8CleanB_iff`).  Nothing else is needed: the encoder
+    is total on the tree type, and what the tree type cannot express (comments, the validation
+    links, nil pointers inside lists) does not occur in a parsed document. -/
+def utf8CleanB (d : QueryDoc) : Bool := fixDocB sanitize d
+
+/- ---------------- the same at the level of the source text ---------------- -/
+
+/-- Every token the lexer model produces from `(rest, cur)` has a value that is well-formed UTF-8:
+    follow `readToken` until it errors or reaches its fixed point (the EOF token, which leaves the
+    state unchanged).  `false` when the fuel runs out first (`inp.length + 2` always suffices: every
+    token but EOF consumes a byte).  Sufficient for the parsed document to be `utf8CleanB`
+    (`parseQuery_clean`); it also looks at comments, which never reach the tree. -/
+def lexCleanB : Nat → Bytes → Lexer.Cur → Bool
+  | 0, _, _ => false
+  | n + 1, rest, cur =>
+    match Lexer.readToken rest cur with
+    | .err _ => true
+    | .tok t r c =>
+      decide (sanitize t.value = t.value) && (if r = rest ∧ c = cur then true else lexCleanB n r c)
+
+def sourceCleanB (inp : Bytes) : Bool := lexCleanB (inp.length + 2) inp Lexer.Cur.init
+
 /- ---------------- selection kinds ---------------- -/
 
 mutual
@@ -137,5 +217,48 @@ end
 
 def docKinds (d : QueryDoc) : List SelKind :=
   d.ops.flatMap (fun o => selsKinds o.sel) ++ d.frags.flatMap (fun fr => selsKinds fr.sel)
+
+/- ---------------- addressing a selection at any depth ---------------- -/
+
+def kindOf : Selection → SelKind
+  | .field _ _ _ _ _ _ => .field
+  | .spread _ _ _ => .spread
+  | .inline _ _ _ _ => .inline
+
+/-- the selection set nested in a selection (a fragment spread has none) -/
+def subsOf : Selection → Selections
+  | .field _ _ _ _ sel _ => sel
+  | .spread _ _ _ => .nil
+  | .inline _ _ sel _ => sel
+
+def nth? : Selections → Nat → Option Selection
+  | .nil, _ => none
+  | .cons s _, 0 => some s
+  | .cons _ rest, i + 1 => nth? rest i
+
+/-- `selAt ss i [j, k, …]`: the `i`-th selection of `ss`, then the `j`-th selection of ITS
+    selection set, then the `k`-th of that one, … (nesting depth = 1 + length of the path) -/
+def selAt : Selections → Nat → List Nat → Option Selection
+  | ss, i, [] => nth? ss i
+  | ss, i, j :: path =>
+    match nth? ss i with
+    | none => none
+    | some s => selAt (subsOf s) j path
+
+/-- where a top-level selection set of a document hangs: the `i`-th operation or fragment -/
+inductive Root
+  | op (i : Nat)
+  | frag (i : Nat)
+  deriving DecidableEq, Repr
+
+def docRoot (d : QueryDoc) : Root → Option Selections
+  | .op i => d.ops[i]?.map (·.sel)
+  | .frag i => d.frags[i]?.map (·.sel)
+
+/-- the selection at position `i :: path` under root `r` (any nesting depth) -/
+def docSelAt (d : QueryDoc) (r : Root) (i : Nat) (path : List Nat) : Option Selection :=
+  match docRoot d r with
+  | none => none
+  | some ss => selAt ss i path
 
 end Gql.Json
